@@ -30,10 +30,14 @@ type CaseRec struct {
 	UU string `sod:"unique,upper"`
 	LL string `sod:"index,lower"`
 	LU string `sod:"lower,unique"` // transformer listed before unique in the tag
+	NS NamedStr `sod:"upper"` // a named string type carrying a constraint
 	In *CaseIn
 	CaseEmb
 	Raw string `sod:"index"`
 }
+
+// NamedStr is a named string type.
+type NamedStr string
 
 type casePath struct {
 	Path  string
@@ -47,6 +51,7 @@ var casePaths = []casePath{
 	{"UU", true, func(r *CaseRec) string { return r.UU }},
 	{"LL", false, func(r *CaseRec) string { return r.LL }},
 	{"LU", false, func(r *CaseRec) string { return r.LU }},
+	{"NS", true, func(r *CaseRec) string { return string(r.NS) }},
 	{"In.Deep", false, func(r *CaseRec) string {
 		if r.In == nil {
 			return ""
@@ -88,7 +93,7 @@ func caseStrings(maxLen int) []string {
 }
 
 func newCaseRec(s string, withIn bool) *CaseRec {
-	r := &CaseRec{U: s, L: s, UU: s, LL: s, LU: "lu" + s, Raw: s, CaseEmb: CaseEmb{EU: s}}
+	r := &CaseRec{U: s, L: s, UU: s, LL: s, LU: "lu" + s, NS: NamedStr(s), Raw: s, CaseEmb: CaseEmb{EU: s}}
 	if withIn {
 		r.In = &CaseIn{Deep: s, Plain: s}
 	}
@@ -246,7 +251,7 @@ func runC16(c *Ctx) {
 						if strings.HasPrefix(p.Path, "In.") && !withIn {
 							stored = ""
 						}
-						if p.Path == "LU" || (swapped && p.Path == "L") {
+						if p.Path == "LU" || p.Path == "NS" || (swapped && p.Path == "L") {
 							continue
 						}
 						for _, probe := range probes {
